@@ -394,3 +394,373 @@ Section Stream.
         rewrite skipn_seg by lia. f_equal. lia.
   Qed.
 End Stream.
+
+(* ================================================================== D. consequences *)
+Lemma bind_ok_inv {A B} (r : result A) (k : A -> result B) y :
+  bind r k = Ok y -> exists a, r = Ok a /\ k a = Ok y.
+Proof. destruct r; cbn; intros H; try discriminate. eauto. Qed.
+
+(* ---------------------------------------------------------------- D1. bytes_schedule_indep *)
+Section Serve.
+  Variable aes : list Z -> Z -> Z.
+  (* a sequence of generate_random_bytes requests on one session *)
+  Fixpoint serve (key : list Z) (s : session) (reqs : list nat) : result (list (list Z)) :=
+    match reqs with
+    | [] => Ok []
+    | n :: r => let* (b, s') := sess_bytes aes key s n in
+                let* bs := serve key s' r in Ok (b :: bs)
+    end.
+  (* the same requests cut out of a stream, one after the other *)
+  Fixpoint serve_spec (f : nat -> Z) (p : nat) (reqs : list nat) : list (list Z) :=
+    match reqs with
+    | [] => []
+    | n :: r => seg f p n :: serve_spec f (p + n) r
+    end.
+
+  Lemma serve_stream key iv reqs : forall s p,
+    Inv aes key iv s p -> serve key s reqs = Ok (serve_spec (stream_byte aes key iv) p reqs).
+  Proof.
+    induction reqs as [|n r IH]; intros s p HI; cbn [serve serve_spec]; [reflexivity|].
+    destruct (sess_bytes_stream aes key iv s p n HI) as (s' & -> & HI'). cbn [bind].
+    rewrite (IH s' _ HI'). reflexivity.
+  Qed.
+
+  Theorem bytes_schedule_indep key iv initial reqs :
+    (0 < initial)%nat ->
+    serve key (session_new iv initial) reqs = Ok (serve_spec (stream_byte aes key iv) 0 reqs).
+  Proof. intros H. apply serve_stream, Inv_new, H. Qed.
+
+  Lemma serve_spec_concat f reqs : forall p,
+    concat (serve_spec f p reqs) = seg f p (fold_right Nat.add 0%nat reqs).
+  Proof.
+    induction reqs as [|n r IH]; intros p; cbn [serve_spec concat fold_right]; [reflexivity|].
+    rewrite IH, seg_app. reflexivity.
+  Qed.
+End Serve.
+
+(* ---------------------------------------------------------------- D2. model = buffer-free spec *)
+Section Pure.
+  Variable aes : list Z -> Z -> Z.
+
+  Lemma prf_value_spec key iv t : prf_output_value aes (mkPrf key) iv t = spec_value aes key iv t.
+  Proof.
+    unfold prf_output_value, spec_value. cbn [prf_key].
+    assert (H0 : (0 < INITIAL_BUFFER_SIZE)%nat) by (unfold INITIAL_BUFFER_SIZE; lia).
+    pose proof (gen_value_rel (Inv aes key iv) (sess_bytes aes key) (pure_bytes (stream_byte aes key iv))
+                  (sess_bytes_rel aes key iv) t _ _ (Inv_new aes key iv _ H0)) as H.
+    destruct (gen_value (sess_bytes aes key) t _) as [[v s]| | |],
+             (gen_value (pure_bytes _) t _) as [[v' p]| | |]; cbn in H; try contradiction; try reflexivity.
+    destruct H as [-> _]. reflexivity.
+  Qed.
+
+  Lemma prf_perm_spec fuel key iv n :
+    prf_output_permutation aes fuel (mkPrf key) iv n = spec_permutation aes fuel key iv n.
+  Proof.
+    unfold prf_output_permutation, spec_permutation. cbn [prf_key].
+    destruct (2 ^ 30 <? n); [reflexivity|].
+    destruct (Z.to_nat n) as [|k] eqn:En; [reflexivity|].
+    assert (H0 : (0 < Nat.min BUFFER_SIZE (S k))%nat) by (unfold BUFFER_SIZE; lia).
+    pose proof (fy_loop_rel (Inv aes key iv) (sess_number aes key) (pure_number (stream_byte aes key iv))
+                  (sess_number_rel aes key iv) fuel (S k - 1) 1 (iota (S k)) _ _
+                  (Inv_new aes key iv _ H0)) as H.
+    destruct (fy_loop (sess_number aes key) _ _ _ _ _) as [[a s]| | |],
+             (fy_loop (pure_number _) _ _ _ _ _) as [[a' p]| | |]; cbn in H; try contradiction; try reflexivity.
+    destruct H as [-> _]. reflexivity.
+  Qed.
+
+  (* every cached Prf object was built from the first 16 bytes of its map key *)
+  Definition cache_ok (ev : evaluator) : Prop :=
+    Forall (fun kp => (SEED_SIZE <= length (fst kp))%nat /\ prf_key (snd kp) = firstn SEED_SIZE (fst kp)) ev.
+  Definition insts_ok (m : instances) : Prop := Forall (fun ie => cache_ok (snd ie)) m.
+
+  Lemma cache_find_ok ev k p : cache_ok ev -> cache_find k ev = Some p ->
+    (SEED_SIZE <= length k)%nat /\ prf_key p = firstn SEED_SIZE k.
+  Proof.
+    induction 1 as [|[k' p'] ev [H1 H2] Hev IH]; cbn [cache_find]; [discriminate|].
+    destruct (list_eqb Z.eqb k k') eqn:E.
+    - apply list_eqb_eq in E; [|intros x y Hxy; apply Z.eqb_eq, Hxy]. subst k'.
+      intros [= <-]. cbn [fst snd] in *. auto.
+    - exact IH.
+  Qed.
+  Lemma inst_find_ok i m : insts_ok m -> cache_ok (inst_find i m).
+  Proof.
+    induction 1 as [|[i' e] m He Hm IH]; cbn [inst_find]; [constructor|].
+    destruct (i =? i')%nat; [exact He | exact IH].
+  Qed.
+
+  Lemma prf_run_spec fuel p c key :
+    call_key c = BBytes key -> (SEED_SIZE <= length key)%nat -> prf_key p = firstn SEED_SIZE key ->
+    prf_run aes fuel p c = spec_call aes fuel c.
+  Proof.
+    intros Hk Hl Hp. unfold spec_call. rewrite Hk.
+    replace (length key <? SEED_SIZE)%nat with false by (symmetry; apply Nat.ltb_ge; exact Hl).
+    destruct p as [k]. cbn [prf_key] in Hp. subst k.
+    destruct c; cbn [prf_run]; [apply prf_value_spec | apply prf_perm_spec].
+  Qed.
+
+  Lemma eval_prf_node_spec fuel ev c : cache_ok ev ->
+    fst (eval_prf_node aes fuel ev c) = spec_call aes fuel c /\
+    cache_ok (snd (eval_prf_node aes fuel ev c)).
+  Proof.
+    intros Hev. unfold eval_prf_node.
+    destruct (call_key c) as [key|vs] eqn:Hk; [|unfold spec_call; rewrite Hk; auto].
+    destruct (cache_find key ev) as [p|] eqn:Hf.
+    - destruct (cache_find_ok ev key p Hev Hf) as [Hl Hp]. cbn [fst snd]. split; [|exact Hev].
+      apply prf_run_spec with key; auto.
+    - destruct (length key <? SEED_SIZE)%nat eqn:El.
+      + unfold spec_call. rewrite Hk, El. auto.
+      + apply Nat.ltb_ge in El.
+        rewrite (prf_run_spec fuel (prf_new (firstn SEED_SIZE key)) c key Hk El eq_refl).
+        destruct (spec_call aes fuel c) eqn:Es; cbn [fst snd]; split; auto.
+        constructor; [cbn [fst snd]; auto | exact Hev].
+  Qed.
+
+  Theorem prf_pure fuel h : forall m, insts_ok m ->
+    run_history aes fuel h m = map (fun ic => spec_call aes fuel (snd ic)) h.
+  Proof.
+    induction h as [|[i c] h IH]; intros m Hm; cbn [run_history map]; [reflexivity|].
+    pose proof (eval_prf_node_spec fuel (inst_find i m) c (inst_find_ok i m Hm)) as [H1 H2].
+    destruct (eval_prf_node aes fuel (inst_find i m) c) as [v e']. cbn [fst snd] in *.
+    rewrite H1. f_equal. apply IH. constructor; [exact H2 | exact Hm].
+  Qed.
+
+  Lemma prng_bytes_rel seed :
+    forall g p n, (prng_key g = seed /\ Inv aes seed 0 (prng_sess g) p) ->
+      rrel (fun g p => prng_key g = seed /\ Inv aes seed 0 (prng_sess g) p)
+           (prng_bytes aes g n) (pure_bytes (stream_byte aes seed 0) p n).
+  Proof.
+    intros g p n [Hk HI]. unfold prng_bytes. rewrite Hk.
+    destruct (sess_bytes_stream aes seed 0 (prng_sess g) p n HI) as (s' & -> & HI'). cbn. auto.
+  Qed.
+
+  Theorem prng_replay fuel seed ops : prng_observe aes fuel seed ops = spec_prng aes fuel seed ops.
+  Proof.
+    unfold prng_observe, spec_prng.
+    apply prng_run_rel with (R := fun g p => prng_key g = seed /\ Inv aes seed 0 (prng_sess g) p).
+    - apply prng_bytes_rel.
+    - split; [reflexivity|]. apply Inv_new. unfold BUFFER_SIZE. lia.
+  Qed.
+End Pure.
+
+(* ---------------------------------------------------------------- D3. blocks_disjoint *)
+Theorem ctr_injective iv iv' j j' :
+  0 <= iv < 2 ^ 64 -> 0 <= iv' < 2 ^ 64 -> 0 <= j < 2 ^ 64 -> 0 <= j' < 2 ^ 64 ->
+  ctr iv j = ctr iv' j' -> iv = iv' /\ j = j'.
+Proof.
+  intros H1 H2 H3 H4. unfold ctr. rewrite !Z.mod_small by lia. lia.
+Qed.
+Theorem blocks_disjoint iv iv' j j' :
+  0 <= iv < 2 ^ 64 -> 0 <= iv' < 2 ^ 64 -> 0 <= j < 2 ^ 64 -> 0 <= j' < 2 ^ 64 ->
+  iv <> iv' -> ctr iv j <> ctr iv' j'.
+Proof. intros H1 H2 H3 H4 Hne E. destruct (ctr_injective iv iv' j j' H1 H2 H3 H4 E). contradiction. Qed.
+
+(* ---------------------------------------------------------------- D4. value_in_domain *)
+(* types as Rust holds them: dimensions and vector lengths are u64, hence non-negative *)
+Fixpoint ty_u64 (t : ty) : Prop :=
+  match t with
+  | TScalar _ => True
+  | TArray sh _ => Forall (fun x => 0 <= x) sh
+  | TVector n t1 => 0 <= n /\ ty_u64 t1
+  | TTuple ts => (fix go (l : list ty) : Prop :=
+                    match l with [] => True | x :: r => ty_u64 x /\ go r end) ts
+  | TNamed fs => (fix go (l : list (string * ty)) : Prop :=
+                    match l with [] => True | x :: r => ty_u64 (snd x) /\ go r end) fs
+  end.
+Lemma ty_u64_tuple ts : ty_u64 (TTuple ts) <-> Forall ty_u64 ts.
+Proof.
+  cbn [ty_u64]. induction ts as [|t ts IH]; [split; constructor|].
+  rewrite Forall_cons_iff, <- IH. reflexivity.
+Qed.
+Lemma ty_u64_named fs : ty_u64 (TNamed fs) <-> Forall (fun p => ty_u64 (snd p)) fs.
+Proof.
+  cbn [ty_u64]. induction fs as [|t ts IH]; [split; constructor|].
+  rewrite Forall_cons_iff, <- IH. reflexivity.
+Qed.
+
+(* ceil(bits/8) bytes, each a byte, and the bits of the last byte above the type's size are 0 *)
+Definition leaf_ok (b : list Z) (bits : Z) : Prop :=
+  Z.of_nat (length b) = (bits + 7) / 8 /\ Forall byte b /\
+  last b 0 < 2 ^ (8 - (8 * ((bits + 7) / 8) - bits)).
+Inductive valid_enc : bvalue -> ty -> Prop :=
+| V_scalar b s n : size_in_bits (TScalar s) = Ok n -> leaf_ok b n -> valid_enc (BBytes b) (TScalar s)
+| V_array b sh s n : size_in_bits (TArray sh s) = Ok n -> leaf_ok b n -> valid_enc (BBytes b) (TArray sh s)
+| V_vector vs n t : length vs = Z.to_nat n -> Forall (fun v => valid_enc v t) vs ->
+                    valid_enc (BVec vs) (TVector n t)
+| V_tuple vs ts : Forall2 valid_enc vs ts -> valid_enc (BVec vs) (TTuple ts)
+| V_named vs fs : Forall2 valid_enc vs (map snd fs) -> valid_enc (BVec vs) (TNamed fs).
+
+Lemma shr_last_cons2 b b' r k : shr_last (b :: b' :: r) k = b :: shr_last (b' :: r) k.
+Proof. reflexivity. Qed.
+Lemma shr_last_spec bs k : 0 <= k <= 8 -> Forall byte bs ->
+  length (shr_last bs k) = length bs /\ Forall byte (shr_last bs k) /\ last (shr_last bs k) 0 < 2 ^ (8 - k).
+Proof.
+  intros Hk. assert (P : 0 < 2 ^ (8 - k)) by (apply Z.pow_pos_nonneg; lia).
+  induction bs as [|b bs IH]; intros Hb.
+  - cbn. auto.
+  - apply Forall_cons_iff in Hb as [Hb Hbs]. destruct bs as [|b' r].
+    + cbn [shr_last length last]. unfold byte in *.
+      assert (E : 256 = 2 ^ k * 2 ^ (8 - k)) by (rewrite <- Z.pow_add_r by lia; replace (k + (8 - k)) with 8 by lia; reflexivity).
+      assert (0 < 2 ^ k) by (apply Z.pow_pos_nonneg; lia).
+      assert (Hq : b / 2 ^ k < 2 ^ (8 - k)) by (apply Z.div_lt_upper_bound; lia).
+      assert (0 <= b / 2 ^ k) by (apply Z.div_pos; lia).
+      assert (2 ^ (8 - k) <= 256) by nia.
+      repeat split; auto. constructor; [lia | constructor].
+    + rewrite shr_last_cons2. destruct (IH Hbs) as (L & F & La).
+      repeat split.
+      * cbn [length] in *. lia.
+      * constructor; auto.
+      * change (last (b :: shr_last (b' :: r) k) 0) with
+          (match shr_last (b' :: r) k with [] => b | _ :: _ => last (shr_last (b' :: r) k) 0 end).
+        destruct (shr_last (b' :: r) k) eqn:E; [cbn in L; lia | exact La].
+Qed.
+
+Lemma fold_left_err {A} (F : result Z -> A -> result Z) l :
+  (forall x, F Err x = Err) -> fold_left F l Err = Err.
+Proof. intros HF. induction l as [|x l IH]; cbn; [reflexivity|]. now rewrite HF. Qed.
+Lemma array_bits_nonneg sh s n : Forall (fun x => 0 <= x) sh -> size_in_bits_raw (TArray sh s) = Ok n -> 0 <= n.
+Proof.
+  intros Hsh. cbn [size_in_bits_raw]. intros H. apply bind_ok_inv in H as (pr & Hpr & Hn).
+  assert (G : forall l a, Forall (fun x => 0 <= x) l -> 0 <= a ->
+                fold_left (fun acc x => let* a := acc in chk64 (a * x)) l (Ok a) = Ok pr -> 0 <= pr).
+  { clear. induction l as [|x l IH]; intros a Hl Ha; cbn [fold_left].
+    - intros [= <-]. exact Ha.
+    - apply Forall_cons_iff in Hl as [Hx Hl]. cbn [bind]. unfold chk64 at 2.
+      destruct (a * x <=? u64_max).
+      + apply IH; [exact Hl | nia].
+      + rewrite fold_left_err; [discriminate | reflexivity]. }
+  pose proof (G sh 1 Hsh ltac:(lia) Hpr) as Hp.
+  unfold chk64 in Hn. destruct (width s * pr <=? u64_max); [|discriminate].
+  injection Hn as <-. pose proof (width_pos s). nia.
+Qed.
+Lemma size_in_bits_raw_of t n : size_in_bits t = Ok n -> size_in_bits_raw t = Ok n.
+Proof. unfold size_in_bits. destruct (ty_valid t); [auto | discriminate]. Qed.
+
+Section Domain.
+  Context {St : Type} (bytes : St -> nat -> result (list Z * St)).
+  Hypothesis Hbytes : forall s n bs s', bytes s n = Ok (bs, s') -> length bs = n /\ Forall byte bs.
+
+  Lemma gen_leaf_ok t s v s' n :
+    size_in_bits t = Ok n -> 0 <= n -> gen_leaf bytes t s = Ok (v, s') ->
+    exists b, v = BBytes b /\ leaf_ok b n.
+  Proof.
+    intros Hn Hn0. unfold gen_leaf. rewrite Hn. cbn [bind]. intros H.
+    apply bind_ok_inv in H as ([bs s1] & Hb & H). injection H as <- <-.
+    destruct (Hbytes _ _ _ _ Hb) as [Hl Hf].
+    set (k := 8 * ((n + 7) / 8) - n). assert (Hk : 0 <= k <= 8) by (subst k; lia).
+    destruct (shr_last_spec bs k Hk Hf) as (L & F & La).
+    eexists. split; [reflexivity|]. unfold leaf_ok. rewrite L, Hl. repeat split; auto.
+    rewrite Z2Nat.id; [reflexivity | lia].
+  Qed.
+
+  Lemma mapS_Forall2 {A B} (P : B -> A -> Prop) (g : A -> St -> result (B * St)) l :
+    Forall (fun x => forall s y s', g x s = Ok (y, s') -> P y x) l ->
+    forall s ys s', mapS g l s = Ok (ys, s') -> Forall2 P ys l.
+  Proof.
+    induction 1 as [|x l Hx Hl IH]; intros s ys s'; cbn [mapS].
+    - intros [= <- _]. constructor.
+    - intros H. apply bind_ok_inv in H as ([y s1] & Hy & H).
+      apply bind_ok_inv in H as ([ys1 s2] & Hys & H). injection H as <- <-.
+      constructor; eauto.
+  Qed.
+  Lemma repS_Forall {B} (P : B -> Prop) (g : St -> result (B * St)) k :
+    (forall s y s', g s = Ok (y, s') -> P y) ->
+    forall s ys s', repS g k s = Ok (ys, s') -> Forall P ys /\ length ys = k.
+  Proof.
+    intros Hg. induction k as [|k IH]; intros s ys s'; cbn [repS].
+    - intros [= <- _]. split; [constructor | reflexivity].
+    - intros H. apply bind_ok_inv in H as ([y s1] & Hy & H).
+      apply bind_ok_inv in H as ([ys1 s2] & Hys & H). injection H as <- <-.
+      destruct (IH _ _ _ Hys). split; [constructor; eauto | cbn; lia].
+  Qed.
+  Lemma Forall2_map_r {A B C} (Q : A -> C -> Prop) (g : B -> C) l1 l2 :
+    Forall2 (fun y p => Q y (g p)) l1 l2 -> Forall2 Q l1 (map g l2).
+  Proof. induction 1; cbn; constructor; auto. Qed.
+
+  Theorem gen_value_domain t : ty_u64 t ->
+    forall s v s', gen_value bytes t s = Ok (v, s') -> valid_enc v t.
+  Proof.
+    induction t as [sc|sh sc|n t IH|ts IH|fs IH] using ty_ind'; intros Hu s v s'; cbn [gen_value].
+    - intros H. destruct (size_in_bits (TScalar sc)) as [n| | |] eqn:En;
+        try (unfold gen_leaf in H; rewrite En in H; discriminate).
+      assert (Hn0 : 0 <= n).
+      { apply size_in_bits_raw_of in En. cbn in En. injection En as <-. pose proof (width_pos sc). lia. }
+      destruct (gen_leaf_ok _ _ _ _ _ En Hn0 H) as (b & -> & Hb). econstructor; eauto.
+    - intros H. destruct (size_in_bits (TArray sh sc)) as [n| | |] eqn:En;
+        try (unfold gen_leaf in H; rewrite En in H; discriminate).
+      assert (Hn0 : 0 <= n) by (apply (array_bits_nonneg sh sc); [exact Hu | apply size_in_bits_raw_of, En]).
+      destruct (gen_leaf_ok _ _ _ _ _ En Hn0 H) as (b & -> & Hb). econstructor; eauto.
+    - intros H. apply bind_ok_inv in H as ([vs s1] & Hvs & H). injection H as <- <-.
+      destruct Hu as [Hn Hu].
+      destruct (repS_Forall (fun v => valid_enc v t) (gen_value bytes t) (Z.to_nat n) (IH Hu) _ _ _ Hvs).
+      constructor; auto.
+    - intros H. apply bind_ok_inv in H as ([vs s1] & Hvs & H). injection H as <- <-.
+      constructor. apply ty_u64_tuple in Hu.
+      apply (mapS_Forall2 valid_enc (gen_value bytes) ts) with (s := s) (s' := s1); [|exact Hvs].
+      rewrite Forall_forall in *. intros x Hx. apply IH; auto.
+    - intros H. apply bind_ok_inv in H as ([vs s1] & Hvs & H). injection H as <- <-.
+      constructor. apply ty_u64_named in Hu. apply Forall2_map_r.
+      apply (mapS_Forall2 (fun y p => valid_enc y (snd p)) (fun p => gen_value bytes (snd p)) fs)
+        with (s := s) (s' := s1); [|exact Hvs].
+      rewrite Forall_forall in *. intros x Hx. apply IH; auto.
+  Qed.
+End Domain.
+
+(* a valid encoding has the layout check_type accepts (C13: check_type_iff_layout) *)
+Lemma valid_enc_layout t : ty_u64 t -> forall v, valid_enc v t -> layout v t.
+Proof.
+  induction t as [sc|sh sc|n t IH|ts IH|fs IH] using ty_ind'; intros Hu v Hv; inversion Hv; subst.
+  - match goal with H : leaf_ok _ _ |- _ => destruct H as (L & _ & _) end.
+    match goal with H : size_in_bits _ = Ok _ |- _ => apply size_in_bits_raw_of in H; cbn in H; injection H as <- end.
+    constructor. exact L.
+  - match goal with H : leaf_ok _ _ |- _ => destruct H as (L & _ & _) end.
+    match goal with H : size_in_bits _ = Ok _ |- _ => apply size_in_bits_raw_of in H end.
+    econstructor; eauto.
+  - destruct Hu as [Hn Hu]. constructor; [lia|].
+    match goal with H : Forall _ vs |- _ => rename H into Hvs end.
+    rewrite Forall_forall in *. intros x Hx. apply IH; auto.
+  - constructor. apply ty_u64_tuple in Hu.
+    match goal with H : Forall2 valid_enc vs ts |- _ => rename H into H2 end.
+    clear Hv. induction H2 as [|x t0 vs0 ts0 Hx H2 IH2]; constructor.
+    + apply Forall_cons_iff in IH as [IHa _]. apply Forall_cons_iff in Hu as [Hua _]. apply IHa; auto.
+    + apply Forall_cons_iff in IH as [_ IHb]. apply Forall_cons_iff in Hu as [_ Hub]. apply IH2; auto.
+  - constructor. apply ty_u64_named in Hu.
+    match goal with H : Forall2 valid_enc vs (map snd fs) |- _ => rename H into H2 end.
+    clear Hv. revert vs H2. induction fs as [|f0 fs0 IHfs]; intros vs H2; inversion H2; subst; constructor.
+    + apply Forall_cons_iff in IH as [IHa _]. apply Forall_cons_iff in Hu as [Hua _]. apply IHa; auto.
+    + apply Forall_cons_iff in IH as [_ IHb]. apply Forall_cons_iff in Hu as [_ Hub]. apply IHfs; auto.
+Qed.
+
+Theorem value_in_domain aes p iv t v :
+  ty_u64 t -> prf_output_value aes p iv t = Ok v ->
+  valid_enc v t /\ check_type_raw v t = true.
+Proof.
+  intros Hu H. destruct p as [key]. rewrite prf_value_spec in H. unfold spec_value in H.
+  apply bind_ok_inv in H as ([v' p'] & Hg & H). injection H as <-.
+  assert (Hv : valid_enc v' t).
+  { apply (gen_value_domain (pure_bytes (stream_byte aes key iv))) with (s := 0%nat) (s' := p'); auto.
+    intros s n bs s' Hb. unfold pure_bytes in Hb. injection Hb as <- _.
+    split; [apply seg_length | apply seg_Forall, stream_byte_range]. }
+  split; [exact Hv|]. apply check_type_iff_layout, valid_enc_layout; auto.
+Qed.
+
+(* the PRNG's get_random_value / Operation::Random: every value output is a valid encoding *)
+Theorem prng_value_in_domain aes fuel seed ops k t v :
+  nth_error ops k = Some (OpValue t) -> ty_u64 t ->
+  nth_error (prng_observe aes fuel seed ops) k = Some (Ok (OutValue v)) ->
+  valid_enc v t.
+Proof.
+  rewrite prng_replay. unfold spec_prng. generalize 0%nat as p.
+  revert k. induction ops as [|op r IH]; intros k p Hop Hu Hk; [destruct k; discriminate|].
+  cbn [prng_run] in Hk.
+  destruct (prng_step _ fuel op p) as [[o p']| | |] eqn:Es.
+  - destruct k as [|k]; cbn [nth_error] in *.
+    + injection Hop as ->. injection Hk as ->. cbn [prng_step] in Es.
+      apply bind_ok_inv in Es as ([v' p1] & Hg & H). injection H as <- _.
+      apply (gen_value_domain (pure_bytes (stream_byte aes seed 0))) with (s := p) (s' := p1); auto.
+      intros s n bs s' Hb. unfold pure_bytes in Hb. injection Hb as <- _.
+      split; [apply seg_length | apply seg_Forall, stream_byte_range].
+    + eapply IH; eauto.
+  - destruct k as [|[|k]]; cbn [nth_error] in Hk; discriminate.
+  - destruct k as [|[|k]]; cbn [nth_error] in Hk; discriminate.
+  - destruct k as [|[|k]]; cbn [nth_error] in Hk; discriminate.
+Qed.
